@@ -58,11 +58,20 @@ func recoverBoundary(c *Ctx, rule string, fn *ssa.Function) {
 				}
 				continue
 			}
-			mc, isMC := d.Call.Value.(*ssa.MakeClosure)
-			if !isMC {
+			var cl *ssa.Function
+			if mc, isMC := d.Call.Value.(*ssa.MakeClosure); isMC {
+				cl = mc.Fn.(*ssa.Function)
+			} else if sf := d.Call.StaticCallee(); sf != nil && len(sf.Blocks) > 0 && sf.Pkg != nil && p.inModule(sf.Pkg.Pkg.Path()) {
+				// a named deferred function: it must be handed the address of the verifier's boolean result
+				for _, a := range d.Call.Args {
+					if al, isA := a.(*ssa.Alloc); isA && isBool(deref(al.Type())) && returnsCell(fn, al) {
+						cl = sf
+					}
+				}
+			}
+			if cl == nil {
 				continue
 			}
-			cl := mc.Fn.(*ssa.Function)
 			callsRecover := false
 			setsFalse := false
 			eachInstr(cl, func(i2 ssa.Instruction) {
@@ -358,24 +367,30 @@ func verifierTermination(c *Ctx, rule string) {
 			c.Fail(rule, "history:verify-traversal", 0, "a history verifier traversal is missing")
 			continue
 		}
-		cl := r.m.traversal(tv)
+		ti := r.m.traversalInfo(tv)
+		cl := ti.fn
 		okAll := true
 		nRec := 0
 		eachInstr(cl, func(in ssa.Instruction) {
 			cc := callCommon(in)
-			if cc == nil || cc.StaticCallee() != nil || cc.IsInvoke() {
+			if cc == nil || cc.IsInvoke() {
 				return
 			}
-			clt := p.TermOf(cc.Value).Resolve("closure")
-			if clt == nil || clt.Fn != cl {
-				return
+			if cc.StaticCallee() != cl {
+				if cc.StaticCallee() != nil {
+					return
+				}
+				clt := p.TermOf(cc.Value).Resolve("closure")
+				if clt == nil || clt.Fn != cl {
+					return
+				}
 			}
 			nRec++
-			a := p.TermOf(cc.Args[0])
-			desc := a.Op == "call" && a.Fn != nil && (a.Fn.Name() == "Left" || a.Fn.Name() == "Right") && a.Args[0].IsParam(cl, 0)
+			a := p.TermOf(cc.Args[ti.posIdx])
+			desc := a.Op == "call" && a.Fn != nil && (a.Fn.Name() == "Left" || a.Fn.Name() == "Right") && a.Args[0].IsParam(cl, ti.posIdx)
 			cs := p.CondsAt(in.Block())
 			base := hasCond(cs, func(k Cond) bool {
-				return !k.Pol && k.Atom.Op == "call" && k.Atom.Fn != nil && k.Atom.Fn.Name() == "IsLeaf" && k.Atom.Args[0].IsParam(cl, 0)
+				return !k.Pol && k.Atom.Op == "call" && k.Atom.Fn != nil && k.Atom.Fn.Name() == "IsLeaf" && k.Atom.Args[0].IsParam(cl, ti.posIdx)
 			})
 			if !desc || !base {
 				okAll = false
@@ -383,4 +398,21 @@ func verifierTermination(c *Ctx, rule string) {
 		})
 		c.Check(okAll && nRec > 0, rule, "history:"+tv.Name(), cl.Pos(), fmt.Sprintf("%d recursive call(s), each on Left/Right of the current node under !IsLeaf", nRec), "a recursive call of "+tv.Name()+" is not a descent to Left()/Right() of the current position guarded by the leaf test: the recursion may not terminate")
 	}
+}
+
+// returnsCell: some return of fn yields the content of the local cell (a named result kept in memory).
+func returnsCell(fn *ssa.Function, cell *ssa.Alloc) bool {
+	for _, b := range fn.Blocks {
+		if len(b.Instrs) == 0 {
+			continue
+		}
+		if r, ok := b.Instrs[len(b.Instrs)-1].(*ssa.Return); ok {
+			for _, v := range r.Results {
+				if u, isU := v.(*ssa.UnOp); isU && u.X == ssa.Value(cell) {
+					return true
+				}
+			}
+		}
+	}
+	return false
 }
